@@ -38,6 +38,7 @@ type Gen struct {
 	twins  [][]string // groups of twin collections (twin mode)
 	pool   []interface{}
 	nfiles int
+	count  int
 }
 
 var collNamePool = []string{"a", "ab", "coll", "c:", "d:", "i:x", "x y", "naïve", "c.d", "a:b", "日本", "t"}
@@ -536,6 +537,19 @@ func (g *Gen) Next(m *model.DB) Op {
 		ws[i] = c.W[k]
 	}
 	k := kinds[g.R.Pick(ws)]
+	g.count++
+	if c.Mode == "nasty" {
+		if g.count >= c.NOps && g.R.Chance(0.5) {
+			return Op{K: "AfterClose", Coll: g.pickColl(m, true)}
+		}
+		if g.R.Chance(0.04) {
+			coll := g.pickColl(m, true)
+			if g.R.Bool() {
+				return Op{K: "Insert", Coll: coll} // empty batch
+			}
+			return Op{K: "Update", Q: g.query(coll, m.Colls[coll], 0.5, 0.3, 0.3), Upd: map[string]val.V{}} // empty update map
+		}
+	}
 	op := g.make(k, m)
 	g.twinify(&op)
 	g.decorate(&op)
@@ -543,6 +557,11 @@ func (g *Gen) Next(m *model.DB) Op {
 }
 
 func (g *Gen) decorate(op *Op) {
+	if len(op.Colls) > 0 {
+		// a fault position means different things on twins with different
+		// index sets; twin ops run fault-free (restarts happen between ops)
+		return
+	}
 	switch g.Cfg.Faults {
 	case "faults":
 		if g.R.Chance(0.15) && op.K != "Reopen" && op.K != "CrashRestart" {
@@ -661,6 +680,10 @@ func (g *Gen) make(k string, m *model.DB) Op {
 		return Op{K: k, Coll: target, File: g.files[len(g.files)-1-g.R.Intn(min(2, len(g.files)))]}
 	case "CreateCollectionByQuery":
 		target := g.pickColl(m, g.R.Chance(0.2))
+		if target == coll && mc == nil {
+			// creating a collection from itself: outside what the statement defines
+			return Op{K: "HasCollection", Coll: coll}
+		}
 		return Op{K: k, Coll: target, Q: g.query(coll, mc, 0.7, 0.3, 0)}
 	case "Invalid":
 		return g.invalid(m, coll, mc)
